@@ -238,3 +238,22 @@ def _(v):
                 if not ok:
                     bad.append((v0, v1, both, m0, m1))
     v.prove("multipliers_eliminate_the_species", not bad and n == 2 * 24 * 24, detail="%d bad of %d: %s" % (len(bad), n, bad[:5]))
+
+
+@harness("C11", "cancel.proper_multiple", functions=[CH + ":Equilibrium.cancel", "chempy._util:intdiv"], kind="shape-bounded", samples=40)
+def _(v):
+    """cancel where the answer is not trivially 0: every species of the second equilibrium occurs in the first, on the same side.  The multiplier m = -c
+    is the number of times the second can be SUBTRACTED: no species of it is overshot (sign kept) and one more subtraction would overshoot one"""
+    from chempy.chemistry import Equilibrium
+    a1, b1, c1 = v.int("a1", lo=1, hi=60), v.int("b1", lo=1, hi=9), v.int("c1", lo=1, hi=60)
+    a2, c2 = v.int("a2", lo=1, hi=7), v.int("c2", lo=1, hi=7)
+    e1 = Equilibrium({"A": a1, "B": b1}, {"C": c1}, 2.0, checks=())
+    e2 = Equilibrium({"A": a2}, {"C": c2}, 3.0, checks=())
+    c = v.call(e1.cancel, e2)
+    m = -c
+    v.prove("subtraction_not_addition", m >= 0)
+    v.prove("no_species_overshot", SP.conj([m * a2 <= a1, m * c2 <= c1]))
+    v.prove("one_more_would_overshoot", SP.disj([(m + 1) * a2 > a1, (m + 1) * c2 > c1]))
+    # opposite direction: the second written backwards can be ADDED the same number of times
+    e2r = Equilibrium({"C": c2}, {"A": a2}, 1 / 3.0, checks=())
+    v.prove("reversed_partner_is_added", v.call(e1.cancel, e2r) == m)
